@@ -574,3 +574,23 @@ func Replay(path string) int {
 	fmt.Printf("NOT-REPRODUCED property=%s class=%s (the violation does not occur on the current tree)\n", rf.Property, rf.Class)
 	return 0
 }
+
+
+// RunOne executes the run with the given run seed once, with the trace kept,
+// and prints it (debugging aid).
+func RunOne(prop string, runSeed uint64, tier string) int {
+	ch := Registry[prop]
+	if ch == nil {
+		return 2
+	}
+	p := ch.profileFor(runSeed)
+	out := Execute(ch, p, tier, NewTapes(runSeed), true)
+	for _, l := range out.Ctx.Trace {
+		fmt.Println(l)
+	}
+	fmt.Printf("profile=%s hash=%016x violations=%d harness_error=%q\n", p.Name, out.Ctx.Hash, len(out.Ctx.Violations), out.HarnessErr)
+	for _, v := range out.Ctx.Violations {
+		fmt.Printf("VIOLATION %s: %s\n", v.Class, v.Msg)
+	}
+	return 0
+}
